@@ -756,6 +756,8 @@ func Span(dst []float64, l, u float64) []float64 {
 	for i := range dst {
 		dst[i] = l + step*float64(i)
 	}
+	// step*(n-1) may not reproduce u-l exactly.
+	dst[n-1] = u
 	return dst
 }
 
